@@ -11,7 +11,8 @@ DEMOFLAGS="-std=c99 -DBINSON_PARSER_WITH_PRINT -Iinclude"
 if grep -qi "fsanitize" "$SRC/notes.md" 2>/dev/null; then SAN="-fsanitize=address,undefined -fno-sanitize-recover=all -g"; else SAN=""; fi
 gcc $DEMOFLAGS "$SRC/demo.c" src/binson_parser.c src/binson_writer.c -o demo_clean -lm 2>>confirm.log; timeout 60 ./demo_clean >demo_clean.out 2>&1; RC_CLEAN=$?
 gcc $DEMOFLAGS $SAN "$SRC/demo.c" src/binson_parser.c src/binson_writer.c -o demo_clean_san -lm 2>>confirm.log; timeout 60 ./demo_clean_san >demo_clean_san.out 2>&1; RC_CLEAN_SAN=$?
-git apply "$SRC/patch.diff" || { res "patch does not apply"; exit 1; }
+git apply "$SRC/patch.diff" 2>/dev/null || git apply --3way "$SRC/patch.diff" || patch -p1 --fuzz=3 < "$SRC/patch.diff" || { res "patch does not apply"; exit 1; }
+git reset -q; git diff > regenerated.diff
 gcc -std=c99 -Werror -Wall -Wextra -Wpedantic -Wshadow -Wcast-qual -DBINSON_PARSER_WITH_PRINT -Iinclude -c src/binson_parser.c -o /dev/null && gcc -std=c99 -Werror -Wall -Wextra -Wpedantic -Wshadow -Wcast-qual -Iinclude -c src/binson_writer.c -o /dev/null || { res "strict compile fails"; exit 1; }
 cmake -G Ninja -B _build -DBUILD_TESTS=ON -DCMAKE_BUILD_TYPE=RelWithDebInfo -DCMAKE_C_FLAGS=-Wno-error >/dev/null 2>&1 && cmake --build _build >/dev/null 2>&1
 TESTS=$(ctest --test-dir _build -j8 --timeout 900 2>&1 | tail -3 | tr '\n' ' ')
@@ -20,7 +21,7 @@ res "PID=$PID k=$K clean_rc=$RC_CLEAN clean_san_rc=$RC_CLEAN_SAN mut_rc=$RC_MUT 
 OK=0
 if [ $RC_CLEAN -eq 0 ] && [ $RC_CLEAN_SAN -eq 0 ] && [ $RC_MUT -ne 0 ] && echo "$TESTS" | grep -q "100% tests passed, 0 tests failed out of 3979"; then OK=1; fi
 if [ $OK -eq 1 ]; then
-  mkdir -p "$OUT"; cp "$SRC/patch.diff" "$SRC/demo.c" "$OUT/"; cp "$SRC/notes.md" "$OUT/agent_notes.md"
+  mkdir -p "$OUT"; cp regenerated.diff "$OUT/patch.diff"; cp "$SRC/demo.c" "$OUT/"; cp "$SRC/notes.md" "$OUT/agent_notes.md"
   tail -5 demo_mut.out > "$OUT/demo_with_change.out"
   echo "CONFIRMED san='$SAN' clean_rc=$RC_CLEAN mut_rc=$RC_MUT tests='$TESTS'" > "$OUT/confirm.txt"
   res "CONFIRMED -> $OUT"
